@@ -186,7 +186,8 @@ def g_case(h, impl_blocks):
 
 
 FLAGS = ["d_timeout_keeps_failed", "d_interbxh_zero_record", "d_multitx_dst_first", "d_unordered",
-         "d_tl_empty_head", "d_delete_interchain", "d_late_child", "d_fail_ndst_lost", "d_interhub_timeout", "d_receipt_group_skip"]
+         "d_tl_empty_head", "d_delete_interchain", "d_late_child", "d_fail_ndst_lost", "d_interhub_timeout", "d_receipt_group_skip",
+         "d_fail_after_success"]
 
 
 def g_cfg(flags):
